@@ -409,6 +409,15 @@ def check_polylin(case, rec):
     rec.event('poly_evaluations', 7)
 
 
+def asbuilt_fit(A, z):
+    """As-built model of ZernikeFit under the known mechanism `absolute-gtol`: scipy's trf stops at the all-zero
+    initial guess when ||J^T f||_inf = ||A^T z||_inf < gtol = 1e-8 (absolute); otherwise the least-squares solution.
+    -> (predicted coeffs, gradient norm at zero, mechanism can act: gradient norm < 3e-8)"""
+    g0 = float(np.max(np.abs(A.T @ z)))
+    pred = np.zeros(A.shape[1]) if g0 < GTOL_ABS else np.linalg.lstsq(A, z, rcond=None)[0]
+    return pred, g0, g0 < 3 * GTOL_ABS
+
+
 def _fit(fam, x, y, z, N):
     from optiland.zernike import ZernikeFit
     f = ZernikeFit(np.array(x), np.array(y), np.array(z), fam, N)
@@ -437,10 +446,11 @@ def check_fit(case, rec):
                      msg=f'ZernikeFit(num_terms={N}).coeffs has {got.size} entries'):
         return
     # known mechanism: scipy's absolute gtol=1e-8 on ||J^T f||_inf at the all-zero initial guess
-    g0 = float(np.max(np.abs(A.T @ z)))
-    flagged = g0 < 3 * GTOL_ABS
+    pred, g0, flagged = asbuilt_fit(A, z)
+    if flagged:
+        rec.cls('mech-absolute-gtol')
     rec.close('fit-recovery', got, c, TOL_FIT, scale=float(np.max(np.abs(c))),
-              alt=(np.zeros(N) if flagged else None), flags=(('absolute-gtol',) if flagged else ()),
+              alt=(pred if flagged else None), flags=(('absolute-gtol',) if flagged else ()),
               msg=f'{fam}: fit of an exact combination of the first {N} terms at {x.size} {case["layout"]} points '
                   f'(cond {cond:.1f}, max|coeff| {np.max(np.abs(c)):.3g}) does not return the coefficients',
               detail=dict(cond=cond, g0=g0))
@@ -479,10 +489,14 @@ def check_fitlin(case, rec):
         if not rec.check('fit-num-terms', cc.size == N, msg=f'ZernikeFit(num_terms={N}).coeffs has {cc.size} entries'):
             return
     D = max(abs(a) * float(np.max(np.abs(z1))), abs(b) * float(np.max(np.abs(z2))), float(np.max(np.abs(z3))))
-    g0 = float(np.max(np.abs(A.T @ z3)))
-    flagged = g0 < 3 * GTOL_ABS
+    # the known mechanism can act on any of the three fits (e.g. a data set whose projection on the terms is tiny)
+    (p1, g1, f1), (p2, g2, f2), (p3, g3, f3) = asbuilt_fit(A, z1), asbuilt_fit(A, z2), asbuilt_fit(A, z3)
+    flagged = f1 or f2 or f3
+    g0 = [g1, g2, g3]
+    if flagged:
+        rec.cls('mech-absolute-gtol')
     rec.close('fit-linear', c3 - (a * c1 + b * c2), np.zeros(N), TOL_FITLIN, scale=D,
-              alt=(-(a * c1 + b * c2) if flagged else None), flags=(('absolute-gtol',) if flagged else ()),
+              alt=(p3 - (a * p1 + b * p2) if flagged else None), flags=(('absolute-gtol',) if flagged else ()),
               msg=f'{fam}: coeffs(a*z1+b*z2) != a*coeffs(z1)+b*coeffs(z2) (N={N}, {x.size} points, '
                   f'data magnitude {D:.3g})', detail=dict(cond=cond, g0=g0, a=a, b=b))
 
